@@ -52,7 +52,9 @@ def run(ctx):
     cases.append(dict(root=wide, ctcs=[
         ("c0", OP("OR", OP("OR", OP("OR", T("Alpha"), T("Beta")), OP("OR", T("Gamma"), T("Delta"))), OP("AND", T("Alpha"), T("Epsilon")))),
         ("c1", OP("IMPLIES", OP("AND", T("Zeta"), T("Eta")), OP("OR", T("Zeta"), OP("OR", T("Beta"), T("Zeta"))))),
-        ("c2", OP("OR", OP("AND", T("Beta"), T("Gamma")), OP("AND", T("Beta"), OP("NOT", T("Delta")))))]))
+        ("c2", OP("OR", OP("AND", T("Beta"), T("Gamma")), OP("AND", T("Beta"), OP("NOT", T("Delta"))))),
+        ("c3", OP("OR", T("Alpha"), OP("OR", T("Beta"), OP("AND", T("Gamma"), T("Delta"))))),
+        ("c4", OP("OR", OP("OR", OP("AND", T("Zeta"), T("Eta")), T("Gamma")), T("Epsilon")))]))
     # order-permuted twins: equal-comparing models whose text differs (children in another order)
     import copy
     for m in list(cases[:6]) + list(cases[-4:]):
